@@ -366,6 +366,7 @@ prop("C18", "c18",
      "really matches equal the model. Non-trivial: the history contains an empty / invalid / rejected version, a "
      "disappearance, a duplicate, delayed or out-of-order notification; distinct by history.",
      [dict(run="^TestFileSystemProviderConverges$", quick=1000, thorough=3000, shards_thorough=4),
+      dict(run="^TestWatchedRuleSetFileIsFollowed$", quick=60, thorough=1500, shards_thorough=4),
       dict(run="^TestHTTPEndpointProviderConverges$", quick=300, thorough=3000, shards_thorough=4),
       dict(run="^TestCloudBlobProviderConverges$", quick=800, thorough=2000, shards_thorough=4),
       dict(run="^TestCloudBlobSingleObjectConverges$", quick=800, thorough=2000, shards_thorough=2),
